@@ -8,12 +8,26 @@
 EXTENDS TLC, Json, Naturals, Sequences, FiniteSets
 CONSTANTS MaxParams
 VARIABLE c
-Hosts == {"struct", "vfield", "alias_of_struct"}
+\* mention: which of the declared parameters the body of the item mentions. Rust accepts a parameter that the ALIASED type (or the
+\* serialized_as type) does not mention (type Tagged<T, Tag> = Vec<T>; the typed-id pattern Id<T> serialized as String); every
+\* reference to the item still carries one argument per declared parameter, so the declaration keeps the whole list, in order
+\* (Trace_C05!DeclOk). alias_vec: type HostG<..> = Vec<P>; serialized_as: a struct generated as String (its parameters live in PhantomData members);
+\* struct / vfield: the parameters no generated member mentions live in skipped PhantomData members
+Hosts == {"struct", "vfield", "alias_of_struct", "alias_vec", "serialized_as"}
+Mentions == {"all", "first", "last", "none"}
 Perms(n) == {p \in [1..n -> 1..n] : \A i, j \in 1..n : i # j => p[i] # p[j]}
-Init == \E n \in 2..MaxParams : c \in [n : {n}, order : Perms(n), host : Hosts, wrap : {"direct", "vec", "option"}]
+Id(n) == [i \in 1..n |-> i]
+InScope(r) == /\ (r.mention # "all" => (r.order = Id(r.n) /\ r.wrap = "vec"))
+              /\ (r.host = "alias_vec" => r.mention \in {"first", "last", "none"})
+              /\ (r.host = "serialized_as" => r.mention = "none")
+              /\ (r.host = "alias_of_struct" => r.mention = "all")
+              /\ (r.host \in {"struct", "vfield"} => r.mention \in {"all", "first", "last"})
+Init == \E n \in 1..MaxParams : c \in {r \in [n : {n}, order : Perms(n), host : Hosts, wrap : {"direct", "vec", "option"}, mention : Mentions] :
+                                         InScope(r) /\ (r.mention = "all" => r.n >= 2)}
 Next == UNCHANGED c
 PName(i) == <<"P", "Q", "R", "S">>[i]
 \* member k mentions parameter order[k]
-Members == [k \in 1..c.n |-> [name |-> <<"m1", "m2", "m3", "m4">>[k], param |-> PName(c.order[k])]]
+Mentioned == CASE c.mention = "all" -> 1..c.n [] c.mention = "first" -> {1} [] c.mention = "last" -> {c.n} [] OTHER -> {}
+Members == [k \in 1..c.n |-> [name |-> <<"m1", "m2", "m3", "m4">>[k], param |-> IF c.order[k] \in Mentioned THEN PName(c.order[k]) ELSE "-"]]
 Emit == PrintT(<<"REPLAY", ToJson([case |-> c, params |-> [i \in 1..c.n |-> PName(i)], members |-> Members])>>)
 =============================================================================
